@@ -146,14 +146,31 @@ Fixpoint raises (o : obj) : bool :=
   | _ => false
   end.
 
-(* everything below a key the walk does not descend into is removed *)
+(* what the walk can see of an object: attributes that are not selected or sit below a key the
+   walk does not descend into are removed; for declared identifier fields only the *presence* of
+   a field with a skipped name is kept (its absence raises) *)
+Definition selected (s : sel) (k : string) : bool :=
+  match s with
+  | SAll => true
+  | SCtor args ex => mem k args && negb (mem k ex)
+  | SFields fs => mem k fs
+  end.
+Definition is_fields (s : sel) : bool := match s with SFields _ => true | _ => false end.
+
 Fixpoint strip (o : obj) : obj :=
   match o with
   | OInst c i d =>
       OInst c i ((fix go (l : list (string * obj)) : list (string * obj) :=
                     match l with
                     | [] => []
-                    | kv :: r => match kv with (k, v) => if visible k then (k, strip v) :: go r else go r end
+                    | kv :: r =>
+                        match kv with
+                        | (k, v) =>
+                            if selected (sel_of i) k
+                            then (if visible k then (k, strip v) :: go r
+                                  else if is_fields (sel_of i) then (k, ONone) :: go r else go r)
+                            else go r
+                        end
                     end) d)
   | ODict items =>
       ODict ((fix go (l : list (string * obj)) : list (string * obj) :=
@@ -417,6 +434,31 @@ Fixpoint reload (n : node) : option node :=
       else Some n
   end.
 
+(* ids and labels removed: what remains of a composition when creation order, internal ids and
+   labels are forgotten (sharing is forgotten with them) *)
+Fixpoint erase (n : node) : node :=
+  match n with
+  | NPrior _ fam lo hi mean sigma => NPrior 0 fam lo hi mean sigma
+  | NTuple _ ms =>
+      NTuple 0 ((fix go (l : list (string * node)) : list (string * node) :=
+                   match l with [] => [] | kv :: r => match kv with (k, v) => (k, erase v) :: go r end end) ms)
+  | NBinop _ c ln rn l r => NBinop 0 c ln rn (erase l) (erase r)
+  | NUnop _ c pn a => NUnop 0 c pn (erase a)
+  | NModel _ _ cls cargs attrs =>
+      NModel 0 "" cls cargs ((fix go (l : list (string * node)) : list (string * node) :=
+                   match l with [] => [] | kv :: r => match kv with (k, v) => (k, erase v) :: go r end end) attrs)
+  | NColl _ n attrs =>
+      NColl 0 n ((fix go (l : list (string * node)) : list (string * node) :=
+                   match l with [] => [] | kv :: r => match kv with (k, v) => (k, erase v) :: go r end end) attrs)
+  | NInst c cargs ex attrs =>
+      NInst c cargs ex ((fix go (l : list (string * node)) : list (string * node) :=
+                   match l with [] => [] | kv :: r => match kv with (k, v) => (k, erase v) :: go r end end) attrs)
+  | NSearch c fs attrs =>
+      NSearch c fs ((fix go (l : list (string * node)) : list (string * node) :=
+                   match l with [] => [] | kv :: r => match kv with (k, v) => (k, erase v) :: go r end end) attrs)
+  | _ => n
+  end.
+
 (* ------------------------------------------------------------------------------------ *)
 (* correspondence cases                                                                  *)
 (* ------------------------------------------------------------------------------------ *)
@@ -453,7 +495,7 @@ Definition check_case (c : case) : bool :=
   | CReload t raised live =>
       match reload t with
       | None => raised
-      | Some t' => negb raised && obj_eqb (strip (reify t')) (strip live)
+      | Some t' => negb raised && obj_eqb (strip_us (reify (erase t'))) (strip_us live)
       end
   | CRound v r =>
       ofloat_eqb (if float_raises v then None else Some (round8 v)) r
